@@ -527,6 +527,10 @@ func (f *Formatter) formatErrorStatement(stmt *ast.ErrorStatement) string {
 
 	buf.Reset()
 	buf.WriteString("error")
+	// comments before the semicolon of the statement without code and argument
+	if v := f.formatComment(stmt.Infix, "", 0); v != "" {
+		buf.WriteString(" " + v)
+	}
 	// code and argument are arbitrary
 	if stmt.Code != nil {
 		buf.WriteString(" " + f.formatExpression(stmt.Code).String())
